@@ -203,6 +203,14 @@ CLAIMS['C07'] = dict(
          'and all others left-associative, and that compileExpression enters at the loosest level.',
     design='3/C07', note='Unary, postfix, cast and template-bracket disambiguation (compilePrecedence2/3), which depend on token context, and the AST validation are not decided.')
 
+CLAIMS['C05'] = dict(
+    technique='static analysis: def-use census of Token::linenr()/column() values over lib/ and classification of every comparison they feed; the functions allowed to branch '
+              'on positions are an explicit table with one reason per entry',
+    text='Decides the layout clause: every comparison whose operand is a token line or column number (directly or through a local) lies in a tabled function - the three checks the '
+         'property excludes, code for which lines are input syntax (inline suppressions, directives, single-line asm) or output formatting, or a lexicographic position comparator. '
+         'One site outside the tables is a known finding (multi-line lambda bailout in initializationListUsage); two were repaired.',
+    design='3/C05', note='Only the whitespace / blank-line / comment family is covered, and only as a necessary condition; renaming and reordering rewrites are not decided.')
+
 NOT_APPLICABLE = {
     'C01': 'soundness of inferred values vs. concrete executions of arbitrary programs; needs an executing/symbolic oracle, no structural necessary condition in valueflow.cpp',
     'C02': 'same as C01, for container sizes',
